@@ -156,6 +156,9 @@ def shard(shard, nshards, rng, tier, extra):
     run_cases([gen(rng) for _ in range((3000 if tier == 'quick' else 80000) // nshards)], res)
     run_array_cases([gen_array(rng) for _ in range((1500 if tier == 'quick' else 40000) // nshards)], res)
     indicator(rng, res, (400 if tier == 'quick' else 8000) // nshards)
+    # 2-D arrays of Python integers in C order, as transposed views and in Fortran order, both overflow modes: stored position by position
+    import c03
+    c03.run_wide2d(c03.wide2d_cases(rng, (300 if tier == 'quick' else 8000) // nshards, omodes=('wrap', 'saturate')), res, pid='C18')
     return res
 
 def run(seed, tier):
@@ -165,5 +168,7 @@ def replay(payload):
     res = Result(); c = payload['case']
     if 'c' in c: run_cases([c], res)
     elif 'cs' in c: run_array_cases([c], res)
+    elif 'shape2d' in c:
+        import c03; c03.run_wide2d([c], res, pid='C18')
     elif 'n' in c: run_indicator_cases([c], res)
     return {'holds': not res.failures, 'failures': res.failures}
